@@ -566,7 +566,16 @@ func (conv) Gen(r *hx.Rng, n int, _ string, emit func(string)) {
 			hi, lo := genPair(r)
 			emit(ty + " narrow " + pair(hi, lo))
 		default:
-			switch r.Intn(4) {
+			switch r.Intn(7) {
+			case 4:
+				mode := hx.Pick(r, []string{"ok", "ok", "none", "err"})
+				emit(ty + " yamlcb " + mode + " " + hx.Hex([]byte(genText(r))))
+			case 5:
+				mode := hx.Pick(r, []string{"ok", "ok", "err"})
+				emit(ty + " scantok " + mode + " " + hx.Pick(r, []string{"v", "d", "x", "X", "o", "O", "b", "s", "q"}) + " " + hx.Hex([]byte(genText(r))))
+			case 6:
+				hi, lo := genPair(r)
+				emit(ty + " " + hx.Pick(r, []string{"asbigfloat", "asbigfloat", "asbigfloat", "float64m"}) + " " + pair(hi, lo))
 			case 0:
 				hi, lo := genPair(r)
 				emit(ty + " comps " + pair(hi, lo))
